@@ -257,6 +257,42 @@ def _joined_rep(b, var_node, fn, mode="inline"):
     return {"t": "rep", "body": body, "sep": ",", "span": var_node["span"]}
 
 
+def _helper_template(fn, call, depth):
+    """composed IR of the quote! a same-file helper returns, for a call `self.h(args)` / `h(args)`; None if not that shape"""
+    e = call
+    while A.kind(e) in ("Expr::Reference", "Expr::Paren", "Expr::Group"):
+        e = e["expr"]
+    k = A.kind(e)
+    if k == "Expr::MethodCall" and A.kind(A.peel(e["receiver"])) == "Expr::Path" and A.path_str(A.peel(e["receiver"])) == "self":
+        name, args = e["method"]["sym"], e["args"]
+    elif k == "Expr::Call" and A.kind(e["func"]) == "Expr::Path" and "::" not in (A.path_str(e["func"]) or "::"):
+        name, args = A.path_str(e["func"]), e["args"]
+    else:
+        return None
+    hs = [g for g in A.functions(fn.file) if g.name == name and g.block is not None and g is not fn]
+    if len(hs) != 1 or depth > 2:
+        return None
+    h = hs[0]
+    st = h.block["stmts"]
+    if not st:
+        return None
+    last = st[-1]
+    mac = last["mac"] if A.kind(last) == "Stmt::Macro" else (last["0"].get("mac") if A.kind(last) == "Stmt::Expr" and A.kind(last["0"]) == "Expr::Macro" else None)
+    if mac is None or A.path_last(mac["path"]) != "quote" or any(A.kind(x) not in ("Stmt::Local",) for x in st[:-1]):
+        return None
+    prm = [A.pat_idents(p_["0"]["pat"]) for p_ in h.node["sig"]["inputs"] if A.kind(p_) == "FnArg::Typed"]
+    if len(prm) != len(args):
+        return None
+    env = {}
+    for ns, a_ in zip(prm, args):
+        a_ = A.peel(a_)
+        while A.kind(a_) in ("Expr::Reference", "Expr::Paren", "Expr::Group"):
+            a_ = a_["expr"]
+        if len(ns) == 1 and A.kind(a_) == "Expr::Path" and "::" not in (A.path_str(a_) or "::"):
+            env[ns[0]] = A.path_str(a_)
+    return _subst_ir(compose(h, to_ir(mac["tokens"]), depth + 1), env)
+
+
 def compose(fn, ir, depth=0, in_rep=False):
     """Inline hoisted sub-templates: an interpolation `#v` whose binding is `let v = quote! { .. };` (possibly through
     `.clone()` / another such alias) is replaced by that template's tokens, recursively. The spliced nodes keep their own
@@ -273,6 +309,12 @@ def compose(fn, ir, depth=0, in_rep=False):
                 toks = _quote_tokens(b["init"], fn)
             if toks is not None:
                 out.extend(compose(fn, to_ir(toks), depth + 1, in_rep))
+                continue
+            # `let v = self.helper(a, b);` / `helper(a, b)` with the helper's body ending in one `quote! {..}`: the helper's
+            # template, its parameters renamed to the argument variables
+            sub = _helper_template(fn, b["init"], depth) if b and b["kind"] == "let" and b.get("init") is not None else None
+            if sub is not None:
+                out.extend(sub)
                 continue
             rep = _joined_rep(b, x, fn, JOINED_MODE[0]) if b and b["kind"] == "let" and b.get("init") is not None else None
             if rep is not None:
